@@ -802,8 +802,14 @@ func (s *c16Scn) runStreamRecovery(cache bool) string {
 	} else {
 		flag = reqEpoch == "" || reqEpoch == call.sp.Epoch // node.history epochOK, then isStreamRecovered's own check
 	}
-	term := vApp(ctor, c16CoqPubs(hist), vN(call.sp.Offset), vN(cmd), vBool(flag), c16CoqPubs(live), vBool(disc), vBool(recovered), c16CoqIDs(oids))
-	s.addStep(term, map[string]any{"step": strings.ToLower(ctor), "hist": hist, "top": call.sp.Offset, "cmd": cmd, "epoch_flag": flag,
+	args := []string{c16CoqPubs(hist), vN(call.sp.Offset), vN(cmd), vBool(flag)}
+	if cache {
+		// the cache mode keeps only the last publication unless the request names a delta type
+		args = append(args, vBool(refused))
+	}
+	args = append(args, c16CoqPubs(live), vBool(disc), vBool(recovered), c16CoqIDs(oids))
+	term := vApp(ctor, args...)
+	s.addStep(term, map[string]any{"step": strings.ToLower(ctor), "hist": hist, "top": call.sp.Offset, "cmd": cmd, "epoch_flag": flag, "req_delta": refused,
 		"live": live, "disconnected": disc, "recovered": recovered, "delivered": oids}, c16IDs(hist), c16IDs(live), oids)
 	class := "stream-recovery"
 	if cache {
